@@ -80,3 +80,20 @@ Theorem C09_whitening_follows_the_augmentation :
   ["preprocessor1"; "preprocessor2"; "pca1"; "pca2"; "_augment_data"; "whitener1"; "whitener2"; "_fit_algorithm"]%string.
 Proof. exact Chain_tie.cross_fit_stage_order. Qed.
 Print Assumptions C09_whitening_follows_the_augmentation.
+
+(* the squared covariance fraction AS THE SOURCE COMPUTES IT - one minus the squared Frobenius norm of the cross-covariance of the residuals
+   that mode i leaves in the two fields, over the total squared covariance (Model/Cpcca.v: scf_src, run against squared_covariance_fraction()
+   by the correspondence) - is sigma_i^2 / ||C||_F^2 for every mode of a fitted model with identity whitening (MCA): any field with
+   conjugation, any shapes, any number of modes *)
+From XV Require Proofs.C09_scf.
+Theorem C09_scf_of_the_source_is_sigma2_over_total : forall (F : Type) (K : Ops F), FieldLaws K ->
+  forall (n p1 p2 r k : nat) (X Y U Vt : mat) (s sg : vec),
+  svd_ok K p1 p2 r (cross_cov K n p1 p2 X Y) (U, s, Vt) -> (k <= r)%nat -> sign_vec K k sg -> wf K n p1 X -> wf K n p2 Y ->
+  forall i, (i < k)%nat ->
+  let out := cpcca_fit_sg K n p1 p2 r k X Y (U, s, Vt) sg in
+  let ui := col K p1 i (cp_Q1 out) in let vi := col K p2 i (cp_Q2 out) in
+  resid_sqcov K n p1 p2 X Y ui vi = fsub K (frob2 K p1 p2 (cross_cov K n p1 p2 X Y)) (fmul K (vget K s i) (vget K s i)) /\
+  (frob2 K p1 p2 (cross_cov K n p1 p2 X Y) <> f0 K ->
+   scf_src K n p1 p2 X Y ui vi (cp_tsc out) = fdiv K (fmul K (vget K s i) (vget K s i)) (frob2 K p1 p2 (cross_cov K n p1 p2 X Y))).
+Proof. exact (@C09_scf.scf_of_fitted_mode). Qed.
+Print Assumptions C09_scf_of_the_source_is_sigma2_over_total.
